@@ -1,9 +1,14 @@
 (* FactsOK_C19.v — the facts re-extracted from /repo on every run (Facts.v) satisfy what the C19
-   model assumes about the source: every driver call site of the callbacks is dominated by a DryRun
-   test (so that `c_dry = true` really prevents it), the six executors are all there, and nothing
-   but the enumerated functions reads DryRun (so that the statement builders cannot depend on it).
-   A site the extractor cannot classify is SUnknown, a read it cannot classify is ROther: both make
-   these lemmas fail. *)
+   model assumes about the source, stated by what functions DO, not by their names or files:
+   (1) every ConnPool.{Exec,Query,QueryRow,Prepare}Context call site of package gorm / package callbacks
+       either forwards a call it received (ConnPool implementations) or is dominated by a DryRun test: in
+       its own function, or - for an unexported helper that is never used as a value - at every call
+       that leads to it (any depth);
+   (2) the callbacks still contain driver call sites (non-vacuity);
+   (3) inside package callbacks DryRun is read only by functions from which a driver call is
+       reachable (the executors), hence by no statement builder; in package gorm only by
+       Execute / Session / Save / Row / Rows (by name, whatever file or receiver) or by assignments.
+   A site or read the extractor cannot classify is SUnknown / ROther and fails. *)
 From Verif Require Import Base C19_Facts.
 From Gen Require Import Facts.
 Open Scope string_scope.
@@ -12,24 +17,16 @@ Lemma every_call_site_guarded :
   forallb (fun s => site_guarded (snd s)) c19_sites = true.
 Proof. vm_compute. reflexivity. Qed.
 
-(* the executors the model enumerates each have at least one (guarded) call site *)
-Definition executors : list string :=
-  ["callbacks/query.go:Query"; "callbacks/create.go:Create"; "callbacks/update.go:Update";
-   "callbacks/delete.go:Delete"; "callbacks/raw.go:RawExec"; "callbacks/row.go:RowQuery"].
+Definition is_wrapper (c : site_class) : bool := match c with SWrapper => true | _ => false end.
 Lemma executors_present :
-  forallb (fun f => existsb (fun s => String.eqb f (fst (fst s))) c19_sites) executors = true.
+  (8 <=? length (filter (fun s => negb (is_wrapper (snd s))) c19_sites))%nat = true.
 Proof. vm_compute. reflexivity. Qed.
 
-(* call sites outside the executors and the prepared-statement wrappers: none *)
-Lemma no_other_call_site :
-  forallb (fun s => str_in (fst (fst s)) executors
-                    || match snd s with SWrapper => true | _ => false end) c19_sites = true.
-Proof. vm_compute. reflexivity. Qed.
-
-(* who reads DryRun *)
-Definition dry_readers : list string :=
-  executors ++ ["callbacks.go:processor.Execute"; "gorm.go:DB.Session";
-                "finisher_api.go:DB.Save"; "finisher_api.go:DB.Row"; "finisher_api.go:DB.Rows"].
+Definition gorm_readers : list string := ["Execute"; "Session"; "Save"; "Row"; "Rows"].
+Definition is_set (c : read_class) : bool := match c with RSet => true | _ => false end.
 Lemma only_executors_read_dryrun :
-  forallb (fun r => read_ok (snd r) && str_in (fst r) dry_readers) c19_dry_reads = true.
+  forallb (fun r => match r with
+                    | (pkg, name, cls, reaches) =>
+                      read_ok cls && (is_set cls || reaches || (String.eqb pkg "gorm" && str_in name gorm_readers))
+                    end) c19_dry_reads = true.
 Proof. vm_compute. reflexivity. Qed.
